@@ -89,6 +89,23 @@ PROPS["C40"] = {
     "level_note": "Trusted: Kani/CBMC/cadical and the recording closures of the harness.",
 }
 
+PROPS["C37"] = {
+    "enc": ["ForwardingMetadata::new", "mark_last_word_of_object", "calculate_offset_vector", "forward", "Transducer::{new,visit_mark_bit,encode,decode}",
+            "RegionIterator<Block>", "Block/CompressorRegion::{from_aligned_address,from_unaligned_address,start,end}", "SideMetadataSpec::{fetch_or_atomic,store_atomic,load_atomic,load}",
+            "address_to_meta_address", "meta_byte_lshift/mask", "are_different_metadata_bits"],
+    "sym": "start word and size (>= 2 words) of up to two live objects in the first two 512-byte offset-vector blocks of a region (128 words; either object may straddle the block boundary), whether the second object exists, "
+           "the queried address (each object start; any word-aligned address not strictly inside a live object); handoff harness: every transducer state (to, last bit, in-object flag), block start and next mark bit below 2^47",
+    "bound": "Region prefix of two blocks (cursor = 1 KiB), <= 2 live objects; mark bitmap 16 bytes and offset vector 2 words in E2 windows. The bit scan `SideMetadataSpec::scan_non_zero_values` is REPLACED (Kani stub) by a word-by-word reference scan that reads each bit with the real "
+             "`SideMetadataSpec::load` and calls the real closure; that the real scan visits exactly the non-zero regions in ascending order is what C22's scan harnesses decide (composition). Natively (replay) nothing is stubbed. One `forward` call per harness; unwinding assertions on (reference scan 66, others 4).",
+    "outside": "more than two blocks / two objects (the block-to-block hand-off is decided for every state by c37_transducer_handoff, and for the real calculate/forward pair across the one boundary); regions longer than 1 KiB; the real word/byte-at-a-time scan inside this composition (C22); "
+               "CompressorSpace itself (marking during tracing, the copy loop), `scan_marked_objects`; objects of one word (excluded by the property)",
+    "assumptions": COMMON_ASSUME + ["E2: metadata loads/stores redirected to two typed windows", "scan_non_zero_values = reference scan (see bound; discharged by C22 for 1-bit specs on 3- and 9-byte bitmaps)", "objects do not overlap, are >= 2 words, lie inside the two blocks"],
+    "level_text": "Bounded symbolic execution (Kani/CBMC) of the real Compressor forwarding code (mark_last_word_of_object, calculate_offset_vector, forward, the Transducer) on the first two offset-vector blocks of a region for every placement and size of up to two live objects, including objects straddling the block boundary: "
+                  "forward(first object) = region start, forward(second) = region start + size of the first (hence order-preserving, non-overlapping, never above the original address), and any address outside live objects is forwarded past exactly the live bytes below it; "
+                  "plus, for every transducer state, that decode(encode(state)) at a block start continues exactly like the state itself. The mark-bit scan is a reference implementation composed with C22.",
+    "level_note": "Trusted: Kani/CBMC/cadical, the reference scan (12 lines) standing for scan_non_zero_values under Kani, the E2 window stubs. Quick tier: hand-off algebra + forward of the first and second object; thorough adds the arbitrary-address query (about 30 min).",
+}
+
 PROPS["C20"] = {
     "enc": ["SideMetadataSpec::load", "store", "load_atomic", "store_atomic", "set_zero", "set_zero_atomic", "compare_exchange_atomic", "fetch_add_atomic",
             "fetch_sub_atomic", "fetch_and_atomic", "fetch_or_atomic", "fetch_update_atomic", "fetch_ops_on_bits", "side_metadata_access", "assert_value_type",
@@ -274,12 +291,11 @@ NOT_APPLICABLE.update({
     "C15": "same as C14: bucket open conditions are closures over scheduler state evaluated by the last parked worker thread",
     "C16": "same as C14: thread exit/respawn through VMCollection::spawn_gc_thread",
     "C19": "DESIGN P17: a 6-call sequential history on BlockPool::new(2) costs 295 s / 22 GB in CBMC (boxed 256-entry MaybeUninit arrays, Vec, spin::RwLock); the overflow path needs >=257 pushes and the real quantifier is threads",
-    "C30": "DESIGN P18: each touched slab of TwoLevelStateStorage is an 8192-entry array built by array::from_fn; one ensure_mapped across a slab boundary exhausted 24 GB",
+    "C30": "DESIGN P18: each touched slab of TwoLevelStateStorage is an 8192-entry array built by array::from_fn; one ensure_mapped across a slab boundary exhausted 24 GB. Retried in the build phase with the address space shrunk to 16 chunks (4 slabs x 4 chunks) under the guard (hook 2a9d7e5, harness c30_mmapper.rs, tier=wip): a fresh mmapper and one ensure_mapped over <= 2 chunks still does not finish symbolic execution in 800 s (about one second per Flatten::next over the slab slices: pointer-validity case splits on slices of boxed arrays reached through a Vec), so no bound small enough to be decided says anything about the property",
     "C36": "TreadMill is four hashbrown HashSets behind a Mutex; DESIGN P10: two inserts and a remove do not finish symbolic execution in 400 s even with concrete keys",
     "C39": "DESIGN P11: 3 symbolic bytes through to_lowercase/parse/format! exceed 420 s; GCTriggerSelector::from_str compiles two regex::Regex",
 })
 # Planned in DESIGN.md section 3 but not claimed (reasons measured or stated in DESIGN.md section 8.6).
 NOT_APPLICABLE.update({
     "C29": "Map32 keeps two Vec<i32> link tables, a descriptor Vec and two IntArrayFreeLists behind a Mutex and calls the global SFT_MAP (InitializeOnce<Box<dyn SFTMap>>, AtomicU128 entries: inline asm not executable by Kani) on every free; the free-list component alone is at the memory limit for 6 units / 3 operations (C26), so histories over the composed structure are out of reach",
-    "C37": "DESIGN P19: the two-block / two-object formulation of ForwardingMetadata did not finish in 14 min at 5 GB (the bit-scan loop is unrolled to the global bound at every call site); the planned split formulation was not built in the available time",
 })
